@@ -47,14 +47,14 @@ PLANS = {
     "C02": [job("modelrun", "native", 2, [], budget={"quick": 400000, "thorough": 8000000}), job("typevar", "native", 1, ["--layouts", "400"]), hist("big", 1, 40000, 300000), hist("realloc", 1, 480000, 3000000), hist("bound", 8, 480000, 7500000), hist("mutate", 3, 480000, 4500000), hist("ledger", 1, 480000, 3000000), hist("extreme", 2, 320000, 3000000),
             hist("extreme", 2, 320000, 3000000, mode="wrap"), job("realheap", "native", 2, [], budget={"quick": 400000, "thorough": 6000000})],
     "C03": [job("modelrun", "native", 2, [], budget={"quick": 400000, "thorough": 8000000}), hist("big", 1, 40000, 300000), hist("realloc", 1, 480000, 3000000), hist("evict", 14, 480000, 9000000), hist("mixed", 2, 480000, 4500000)],
-    "C04": [job("aliaskeys", "native", 2, [], budget={"quick": 400000, "thorough": 8000000}), job("bigcap", "native", 1, [], budget={"quick": 2000, "thorough": 100000}, budget_arg="max-n"), hist("big", 1, 40000, 300000), hist("map", 12, 480000, 9000000), hist("realloc", 2, 480000, 4500000), hist("mixed", 2, 480000, 4500000)],
+    "C04": [job("hashscale", "native", 1, [], budget={"quick": 200, "thorough": 50000}, budget_arg="rounds"), job("aliaskeys", "native", 2, [], budget={"quick": 400000, "thorough": 8000000}), job("bigcap", "native", 1, [], budget={"quick": 2000, "thorough": 100000}, budget_arg="max-n"), hist("big", 1, 40000, 300000), hist("map", 12, 480000, 9000000), hist("realloc", 2, 480000, 4500000), hist("mixed", 2, 480000, 4500000)],
     "C05": [job("inject", "native", 4, [], budget={"quick": 20000, "thorough": 500000}, budget_arg="cases"), job("modelrun", "native", 2, [], budget={"quick": 400000, "thorough": 8000000}), hist("big", 1, 40000, 300000), job("interleave", "native", 4, [], budget={"quick": 300000, "thorough": 5000000}), hist("order", 12, 480000, 9000000), hist("realloc", 2, 480000, 4500000), hist("mixed", 2, 480000, 4500000)],
     "C06": [job("typevar", "native", 2, [], budget={"quick": 1500000, "thorough": 30000000}), job("typevar", "asan", 1, [], budget={"quick": 300000, "thorough": 5000000}, reports_to=MEM),
             job("typevar", "miri", 2, [], budget={"quick": 60, "thorough": 1500}, reports_to=MEM), hist("big", 1, 40000, 300000), hist("realloc", 1, 480000, 3000000), hist("ledger", 10, 480000, 6000000), hist("mixed", 2, 480000, 3000000),
             hist("ledger", 8, 100000, 2000000, mode="asan", reports_to=MEM),
             hist("ledger", 16, 300, 4000, mode="miri", reports_to=MEM, extra=["--bare", "1"]),
             enum_iter("native", 4, 5, False, tiers=("quick",)), enum_iter("native", 8, 8, False, tiers=("thorough",))],
-    "C07": [job("modelrun", "asan", 2, [], budget={"quick": 100000, "thorough": 2000000}, reports_to=MEM), job("modelrun", "miri", 4, [], budget={"quick": 150, "thorough": 2500}, reports_to=MEM),
+    "C07": [job("hashscale", "native", 1, [], budget={"quick": 200, "thorough": 50000}, budget_arg="rounds", reports_to=MEM), job("modelrun", "asan", 2, [], budget={"quick": 100000, "thorough": 2000000}, reports_to=MEM), job("modelrun", "miri", 4, [], budget={"quick": 150, "thorough": 2500}, reports_to=MEM),
             job("aliaskeys", "asan", 1, [], budget={"quick": 100000, "thorough": 2000000}, reports_to=MEM), job("aliaskeys", "miri", 2, [], budget={"quick": 150, "thorough": 2500}, reports_to=MEM),
             job("interleave", "native", 4, [], budget={"quick": 300000, "thorough": 5000000}), job("interleave", "asan", 2, [], budget={"quick": 60000, "thorough": 1500000}, reports_to=MEM), hist("realloc", 10, 480000, 6000000), hist("map", 2, 480000, 3000000),
             hist("realloc", 10, 100000, 2000000, mode="asan", reports_to=MEM), hist("big", 2, 20000, 120000, mode="asan", reports_to=MEM), hist("big", 2, 50000, 600000),
@@ -85,9 +85,9 @@ PLANS = {
             job("sharedref_threads", "tsan", 8, ["--threads", "4"], budget={"quick": 300, "thorough": 5000}, budget_arg="states", reports_to=("C19",), tiers=("thorough",))],
     "C20": [hist("big", 1, 40000, 300000), job("hashscale", "native", 4, [], budget={"quick": 3000, "thorough": 100000}, budget_arg="rounds"), hist("hash", 12, 480000, 7500000), hist("realloc", 2, 480000, 3000000), hist("evict", 2, 480000, 3000000)],
     "C08": [msjob("memsize", "debug0", 12, [], budget={"quick": 2000, "thorough": 60000}, budget_arg="rounds"),
-            job("memsize_total", "debug0", 18, ["--case", "{shard}", "--thread", "main"], budget={"quick": 1000000, "thorough": 4000000}, budget_arg="n", verdict="exit", prop="C08", bin="lruverif_tot"),
-            job("memsize_total", "debug0", 18, ["--case", "{shard}", "--thread", "small"], budget={"quick": 1000000, "thorough": 4000000}, budget_arg="n", verdict="exit", prop="C08", bin="lruverif_tot"),
-            job("memsize_total", "native", 18, ["--case", "{shard}", "--thread", "small"], budget={"quick": 1000000, "thorough": 10000000}, budget_arg="n", verdict="exit", prop="C08", bin="lruverif_tot")],
+            job("memsize_total", "debug0", 21, ["--case", "{shard}", "--thread", "main"], budget={"quick": 1000000, "thorough": 4000000}, budget_arg="n", verdict="exit", prop="C08", bin="lruverif_tot"),
+            job("memsize_total", "debug0", 21, ["--case", "{shard}", "--thread", "small"], budget={"quick": 1000000, "thorough": 4000000}, budget_arg="n", verdict="exit", prop="C08", bin="lruverif_tot"),
+            job("memsize_total", "native", 21, ["--case", "{shard}", "--thread", "small"], budget={"quick": 1000000, "thorough": 10000000}, budget_arg="n", verdict="exit", prop="C08", bin="lruverif_tot")],
     "C09": [msjob("memsize", "debug0", 12, [], budget={"quick": 5000, "thorough": 200000}, budget_arg="rounds")],
     "C10": [job("modelrun", "native", 2, [], budget={"quick": 400000, "thorough": 8000000}), job("typevar", "native", 1, ["--layouts", "400"]), hist("big", 1, 40000, 300000), hist("realloc", 1, 480000, 3000000), hist("insert", 14, 480000, 9000000), hist("mixed", 2, 480000, 4500000)],
     "C11": [job("inject", "native", 4, [], budget={"quick": 20000, "thorough": 500000}, budget_arg="cases"), job("realheap", "native", 1, [], budget={"quick": 300000, "thorough": 5000000}), job("modelrun", "native", 2, [], budget={"quick": 400000, "thorough": 8000000}), hist("big", 1, 40000, 300000), hist("realloc", 1, 480000, 3000000), hist("mutate", 14, 480000, 9000000), hist("mixed", 2, 480000, 4500000)],
@@ -115,8 +115,8 @@ FLOORS = {
     "C18": {"evaluations": 128, "distinct": 128, "c18_table_rows": 64, "c18_rows_expected_send": 8, "c18_rows_expected_not_send": 56, "c18_moved_across_threads": 20, "c18_nonstatic_exercise_runs": 1, "c18_iterator_autotrait_rows": 112},
     "C19": {"evaluations": {"quick": 5000, "thorough": 80000}, "distinct": 100, "c19_shared_ops_under_write_trap": 500000, "c19_thread_runs_under_write_trap": 10000, "c19_state_empty": 50, "c19_state_single": 50,
             "c19_state_tombstoned": 50, "c19_state_const_hasher": 200, "c19_thread_runs_race_detector": 20, "max:c19_max_len": 30, "c19_deep_states": 50, "max:c19_deep_state_max_colliding_len": 4000},
-    "C20": {"evaluations": {"quick": 300000, "thorough": 10000000}, "distinct": 150, "c20_rebuilds": 2000, "c20_with_departures": 5000, "c20_scale_ops_n16384": 5000, "c20_scale_ops_n1024": 5000, "c20_scale_rebuilds": 500, "c20_scale_mass_ejections": 1000, "max:c20_scale_mass_ejection_max_departures": 10000},
-    "C08": {"evaluations": {"quick": 500000, "thorough": 20000000}, "distinct": 3000, "c08_bulk_shapes_checked": 100000, "c08_totality_cases_debug0": 36, "c08_totality_cases_native": 18, "c08_measured_while_locked_elsewhere": 10, "c08_values_with_user_defined_leaves": 10000},
+    "C20": {"evaluations": {"quick": 300000, "thorough": 10000000}, "distinct": 150, "c20_rebuilds": 2000, "c20_with_departures": 5000, "c20_scale_ops_n16384": 5000, "c20_scale_ops_n1024": 5000, "c20_scale_rebuilds": 500, "c20_scale_mass_ejections": 1000, "c20_giant_rebuilds": 3, "max:c20_giant_rebuild_max_len": 4500000, "max:c20_scale_mass_ejection_max_departures": 10000},
+    "C08": {"evaluations": {"quick": 500000, "thorough": 20000000}, "distinct": 3000, "c08_bulk_shapes_checked": 100000, "c08_totality_cases_debug0": 42, "c08_totality_cases_native": 21, "c08_measured_while_locked_elsewhere": 10, "c08_values_with_user_defined_leaves": 10000},
     "C09": {"evaluations": {"quick": 100000, "thorough": 4000000}, "distinct": 400, "c09_exact_values": 80000, "c09_bounded_values": 5000, "c09_values_holding_memory": 50000},
     "C10": {"sum:model_ops_": 200000, "evaluations": {"quick": 100000, "thorough": 3000000}, "distinct": 40, "each:c10_": 100},
     "C11": {"sum:model_ops_": 200000, "c11_completed_mutate_of_entry_with_stale_record": 2000, "c11_realheap_mutates_in_stale_clone": 1000, "evaluations": {"quick": 100000, "thorough": 3000000}, "distinct": 30, "each:c11_class": 10},
